@@ -20,7 +20,7 @@ import (
 type Msg struct {
 	ID     int    `json:"id"`
 	Q      int    `json:"q"`   // 0 urgent, 1 system, 2 main
-	Beh    string `json:"beh"` // ok, err, panic, call
+	Beh    string `json:"beh"` // ok, err, panic, call, exit (exit signal from the parent: node.SendExit)
 	N      int    `json:"n"`
 	Reason int    `json:"reason"` // for err: 3 normal, 4 shutdown, >=5 custom
 }
@@ -74,7 +74,7 @@ type Result struct {
 }
 
 var labelCode = map[string]int{
-	"done": 0, "send.load": 1, "send.alive": 2, "send.push": 3, "mpsc.link": 4, "run.cas": 5, "run.spawn": 6,
+	"done": 0, "exit.load": 1, "exit.alive": 2, "exit.push": 3, "send.load": 1, "send.alive": 2, "send.push": 3, "mpsc.link": 4, "run.cas": 5, "run.spawn": 6,
 	"run.start": 7, "run.next": 8, "actor.state": 9, "actor.pop": 10, "cb": 11, "wait.cas1": 12, "wait.select": 13,
 	"wait.cas2": 14, "run.cas.sleep": 15, "run.item": 16, "run.cas.wake": 17, "run.swapT.err": 18, "run.swapT.kill": 18,
 	"run.swapT.panic": 18, "run.unreg": 19, "unreg.delete": 20, "run.term": 21, "cb.term": 22, "run.exit": 23,
@@ -153,6 +153,9 @@ func reasonCode(e error) int {
 	var n int
 	if _, err := fmt.Sscanf(e.Error(), "custom-%d", &n); err == nil {
 		return n
+	}
+	if u := errors.Unwrap(e); u != nil {
+		return reasonCode(u)
 	}
 	return -1
 }
@@ -341,7 +344,12 @@ func runCaseEnabled(node gen.Node, helperPID gen.PID, c Case) (Result, [][]int) 
 					case 1:
 						prio = gen.MessagePriorityHigh
 					}
-					err := node.SendWithPriority(to, m, prio)
+					var err error
+					if m.Beh == "exit" {
+						err = node.SendExit(tpid, reasonErr(m.Reason))
+					} else {
+						err = node.SendWithPriority(to, m, prio)
+					}
 					oksMu.Lock()
 					if err == nil {
 						res.Oks = append(res.Oks, m.ID)
@@ -417,9 +425,22 @@ func runCaseEnabled(node gen.Node, helperPID gen.PID, c Case) (Result, [][]int) 
 			next = en[prng.Intn(len(en))]
 		case c.Policy == "highest":
 			next = en[len(en)-1]
-		case c.Policy == "nonpreempt":
-			// keep running the thread that ran last while it is enabled, else the lowest
+		case strings.HasPrefix(c.Policy, "nonpreempt"):
+			// keep running the thread that ran last while it is enabled; otherwise pick by the base order:
+			// nonpreempt = lowest, nonpreempt:highest, nonpreempt:dynfirst = goroutines started by the code
+			// under test (runners, terminate goroutines) before the harness threads
 			next = en[0]
+			switch c.Policy {
+			case "nonpreempt:highest":
+				next = en[len(en)-1]
+			case "nonpreempt:dynfirst":
+				for _, e := range en {
+					if e > len(c.Threads) {
+						next = e
+						break
+					}
+				}
+			}
 			if len(res.Full) > 0 {
 				last := res.Full[len(res.Full)-1]
 				for _, e := range en {
@@ -508,6 +529,8 @@ func coqMsg(m Msg) string {
 		b = "BPanic"
 	case "call":
 		b = fmt.Sprintf("BCall %d", m.N)
+	case "exit":
+		b = fmt.Sprintf("BExit %d", m.Reason)
 	}
 	return fmt.Sprintf("mk_msg %d %d (%s)", m.ID, m.Q, b)
 }
